@@ -222,16 +222,28 @@ Ltac shares_field T G :=
   | lazymatch T with context [jv_sgl_segs _] => lazymatch G with context [jv_sgl_segs _] => idtac end end ].
 
 Ltac relevant_only :=
-  repeat match goal with
-  | H : ?T |- ?G =>
-      lazymatch T with
-      | (_ = true) => idtac | (_ = false) => idtac | (_ < _) => idtac
-      | (_ \/ _) => idtac
-      end;
-      tryif shares_field T G then fail else clear H
+  match goal with
+  | j : job_view |- _ =>
+    repeat match goal with
+    | H : ?T |- ?G =>
+        lazymatch T with
+        | (_ = true) => idtac | (_ = false) => idtac | (_ < _) => idtac
+        | (_ \/ _) => idtac
+        end;
+        (* hypotheses about no job field at all (loop totals, abstracted terms) are always kept *)
+        lazymatch T with context [j] => idtac end;
+        tryif shares_field T G then fail else clear H
+    end
   end.
 
-Ltac arith := unfold pon_pli, MB_MAX_LEN16; norm_arith_goal; gen_enums_unfold_goal; relevant_only; abstract_pli; lia.
+(* boolean sub-terms lia has no theory for: case-split on them (with the div/mod post-hook lia
+   loses track of plain boolean variables, so they are eliminated rather than abstracted) *)
+Ltac abstract_bools :=
+  repeat match goal with
+  | |- context [forallb ?f ?l] => let b := fresh "b" in set (b := forallb f l) in *; clearbody b; destruct b
+  | _ : context [forallb ?f ?l] |- _ => let b := fresh "b" in set (b := forallb f l) in *; clearbody b; destruct b
+  end.
+Ltac arith := unfold pon_pli, MB_MAX_LEN16, jv_num_sgl_io_segs, jv_sgl_io_segs; norm_arith_goal; gen_enums_unfold_goal; relevant_only; abstract_pli; abstract_bools; lia.
 
 Ltac pick_rule :=
   first [ apply viol_here; [ reflexivity | cat; arith ]
